@@ -93,6 +93,9 @@ def tar_strat(tier, opts):
 def check_tar_case(case, opts):
     """images written by tar2sqfs for C04-style archives"""
     import c04, tarimg
+    if case.get("gen"):
+        # (C04 also generates images that do not come from tar; those are gensquashfs images, which the other branch covers)
+        raise Inconclusive("not an archive case")
     ar, o = case["archive"], case["opts"]
     try:
         data = tarimg.encode_archive(ar["entries"], ar["end_marker"], ar["global_pax"], ar["trailing_pad"])
